@@ -61,7 +61,7 @@ func (c09) Info() core.Info {
 			"sections with alignment stuffing are not 'canonical': re-encoding their decoded form need not reproduce the stuffing",
 			"on a decoded signal with foreign descriptors the descriptor list is not replaced (where foreign descriptors would go is not defined); their order relative to segmentation descriptors must be kept",
 		},
-		RequiredProbes: []string{"encoded", "decoded_again", "reencoded_identical", "start_from_decoded", "flag_cleared_after_set", "value_beyond_field_width", "insert_cancelled", "insert_component_mode", "insert_with_duration", "descriptor_cancelled", "descriptor_components", "mid_set", "upid_set", "sub_segments", "command_replaced", "descriptors_replaced", "foreign_descriptor", "pts_adjustment_nonzero", "pts_adjustment_wraps", "data_unchanged_between_encodings", "no_effect_call", "three_descriptors", "component_edited_through_getter_object", "upid_of_a_mid_edited_through_getter_object", "sub_segment_flag_on_type_0x38_or_0x3A", "command_of_256_bytes_or_more"},
+		RequiredProbes: []string{"encoded", "decoded_again", "reencoded_identical", "start_from_decoded", "flag_cleared_after_set", "value_beyond_field_width", "insert_cancelled", "insert_component_mode", "insert_with_duration", "descriptor_cancelled", "descriptor_components", "mid_set", "upid_set", "sub_segments", "command_replaced", "descriptors_replaced", "foreign_descriptor", "pts_adjustment_nonzero", "pts_adjustment_wraps", "data_unchanged_between_encodings", "no_effect_call", "three_descriptors", "component_edited_through_getter_object", "upid_of_a_mid_edited_through_getter_object", "sub_segment_flag_on_type_0x38_or_0x3A", "command_of_256_bytes_or_more", "pts_adjustment_on_a_command_without_time"},
 	}
 }
 
@@ -156,9 +156,9 @@ func c09GenCmd(r *core.Rand) ref.Cmd {
 
 func c09GenSection(r *core.Rand) *ref.Section {
 	s := &ref.Section{Tier: r.Pick(0xFFF, 0, 1, r.Intn(0x1000)), CW: r.Pick(0, 0, 0xFF, r.Intn(256)), Cmd: c09GenCmd(r)}
-	if s.Cmd.CarriesTime() {
-		s.Adjust = r.Pick64(0, 0, 1, 1<<33-1, c09U33(r))
-	}
+	// pts_adjustment is a field of every section, whatever the command (a re-stamping device
+	// adds its offset to splice_nulls and immediate splices too)
+	s.Adjust = r.Pick64(0, 0, 1, 1<<33-1, c09U33(r))
 	n := r.Pick(0, 1, 1, 2, 3)
 	foreign := r.Chance(1, 3)
 	for i := 0; i < n; i++ {
@@ -500,18 +500,27 @@ func (c09) Exec(script interface{}, c *core.Ctx) {
 		}
 		cmds["cS"] = &c09Cmd{m: vis, obj: own}
 		curCmd = "cS"
-		if vis.CarriesTime() {
-			first := vis.Time.PTS
-			if vis.Kind == "insert" && !vis.Program {
-				for _, k := range vis.Comps {
-					if k.Time.Has {
-						first = k.Time.PTS
-						break
-					}
-				}
+		// the signal's time is pts_time + pts_adjustment (pts_time 0 where the command has none)
+		desired = (vis.Time.PTS + sec.Adjust) & c09Mask33
+		// "re-encoding a decoded canonical section reproduces it byte for byte": on a second
+		// decoded copy, before anything is set
+		var twin scte35.SCTE35
+		var terr error
+		var re []byte
+		if !c.Call("scte35.NewSCTE35 + UpdateData(untouched)", func() {
+			twin, terr = scte35.NewSCTE35(append([]byte{0}, enc...))
+			if terr == nil {
+				re = twin.UpdateData()
 			}
-			_ = first
-			desired = (vis.Time.PTS + sec.Adjust) & c09Mask33
+		}) {
+			return
+		}
+		if terr != nil || !bytes.Equal(re, enc) {
+			c.Fail("reencode_identical", "untouched_decoded_section_reencodes_differently:"+c09Where(sec), fmt.Sprintf("%v %x", terr, re), fmt.Sprintf("%x", enc))
+			return
+		}
+		if sec.Adjust != 0 && !vis.CarriesTime() {
+			c.Probe("pts_adjustment_on_a_command_without_time")
 		}
 		k, f := 0, 0
 		for _, it := range sec.Items {
